@@ -127,7 +127,7 @@ def build_lib(flavour, extra_flags=(), repo_src=None):
     return d
 
 
-def build_driver(driver, flavour='fast', extra_srcs=(), extra_flags=(), with_lib=True, extra_inc=()):
+def build_driver(driver, flavour='fast', extra_srcs=(), extra_flags=(), with_lib=True, extra_inc=(), strict=False):
     """driver: path relative to /verif/cxx. Returns binary path."""
     cxx, fl = FLAVOURS[flavour]
     dpath = os.path.join(VERIF, 'cxx', driver)
@@ -136,7 +136,7 @@ def build_driver(driver, flavour='fast', extra_srcs=(), extra_flags=(), with_lib
     hh.update(_hash_tree([dpath, os.path.join(VERIF, 'cxx/common'), os.path.join(VERIF, 'cxx/shim')]).encode())
     for s in extra_srcs:
         hh.update(_hash_tree([s]).encode())
-    hh.update((libd + flavour + repr(fl) + repr(extra_flags) + repr(extra_inc) + repo_src_hash()).encode())
+    hh.update((libd + flavour + repr(fl) + repr(extra_flags) + repr(extra_inc) + repr(strict) + repo_src_hash()).encode())
     key = hh.hexdigest()[:16]
     d = os.path.join(BUILD, 'drv-' + key)
     exe = os.path.join(d, os.path.splitext(os.path.basename(driver))[0])
@@ -149,7 +149,8 @@ def build_driver(driver, flavour='fast', extra_srcs=(), extra_flags=(), with_lib
     inc = []
     for i in extra_inc:
         inc += ['-I', i]
-    cmd = [cxx] + BASE_FLAGS + fl + list(extra_flags) + inc + ['-I', os.path.join(REPO, 'src'), dpath] + list(extra_srcs) + objs + ['-o', exe + '.tmp']
+    base = [f for f in BASE_FLAGS if not (strict and f == '-w')]   # strict: keep the compiler's default diagnostics (narrowing is an error)
+    cmd = [cxx] + base + fl + list(extra_flags) + inc + ['-I', os.path.join(REPO, 'src'), dpath] + list(extra_srcs) + objs + ['-o', exe + '.tmp']
     r = _run(cmd)
     if r.returncode != 0:
         raise Broken('driver build failed: %s\n%s' % (driver, r.stderr[-4000:]))
